@@ -126,6 +126,15 @@ class EpSim:
         out = self.op("cli %d %s" % (i, ep_cfg_text(cfg)))
         self.absorb(out, nets)
 
+    def recli(self, i, cfg, nets):
+        """a new client from the same address as peer i's previous one"""
+        self.clients[i] = cfg
+        self.cevents.setdefault("old%d" % len(self.calls), self.cevents.get(i, []))
+        self.cevents[i] = []
+        self.calls.append((self.time, "connect", i))
+        out = self.op("recli %d %s" % (i, ep_cfg_text(cfg)))
+        self.absorb(out, nets)
+
     def peer(self, i):
         self.op("peer %d" % i)
 
